@@ -32,6 +32,8 @@ import (
 	"os"
 	"path"
 	"path/filepath"
+	"runtime"
+	"runtime/debug"
 	"sort"
 	"strconv"
 	"strings"
@@ -174,14 +176,26 @@ type c13Rec struct {
 type c13Rule struct {
 	Path   string      `json:"path"`
 	Preset bool        `json:"preset,omitempty"`
+	PName  *string     `json:"pname,omitempty"` // preset name as written (overrides Preset; may be unknown or empty)
+	Items  [][]string  `json:"items,omitempty"` // the block's sub-directives in the order written (name, args...); replaces Ext..Env
 	Ext    *string     `json:"ext,omitempty"`
 	Split  *string     `json:"split,omitempty"`
 	Index  []string    `json:"index,omitempty"`
 	Except []string    `json:"except,omitempty"`
 	Env    [][2]string `json:"env,omitempty"`
 }
+type c13Stream struct {
+	Recs []c13Rec `json:"recs"`
+	Tail c13S     `json:"tail,omitempty"`
+}
 type c13In struct {
-	Kind string `json:"kind"` // wire | demux | serve
+	Kind string `json:"kind"` // wire | demux | serve | child | overlap | together
+	// overlap: reader i reads stream i; Sched = [reader, buffer size] of every Read call, in order
+	Streams []c13Stream `json:"streams,omitempty"`
+	Sched   [][2]int    `json:"sched,omitempty"`
+	// together: request i+1 is served completely during the At[i]-th body write of request i
+	Subs []*c13In `json:"subs,omitempty"`
+	At   []int    `json:"at,omitempty"`
 	// wire
 	Pairs   []c13KV `json:"pairs,omitempty"`
 	HasBody bool    `json:"hasbody,omitempty"`
@@ -473,6 +487,8 @@ var c13Files = []string{
 	// scripts of other responders (sites with several fastcgi rules)
 	"cgi/tool.pl", "cgi/TOOL2.PL", "cgi/run.cgi", "cgi/index.pl", "cgi/readme.txt", "cgi/lib/x.py", "cgi/lib/index.py", "app/t.pl", "app/job.cgi",
 	"cgi/tool.pl.d/notes.txt",
+	// scripts with extensions a block gives next to (instead of) the preset's
+	"app/info.php5", "app/index.php5", "index.php5", "app/legacy.phtml", "app/home.phtml", "app/sub/index.phtml", "app/main.pl",
 }
 
 type c13Responder struct {
@@ -491,7 +507,21 @@ var (
 	c13Once sync.Once
 	c13Root string
 	c13Srv  *c13Responder
+	c13Srvs []*c13Responder // one responder per nesting level of overlapping requests (level 0 = c13Srv)
 )
+
+func c13ResponderAt(level int) *c13Responder {
+	for len(c13Srvs) <= level {
+		ln, err := net.Listen("tcp", "127.0.0.1:0")
+		if err != nil {
+			panic(err)
+		}
+		s := &c13Responder{ln: ln, got: make(chan c13Capture, 64)}
+		go s.loop()
+		c13Srvs = append(c13Srvs, s)
+	}
+	return c13Srvs[level]
+}
 
 func c13Setup() {
 	c13Once.Do(func() {
@@ -513,6 +543,7 @@ func c13Setup() {
 		}
 		os.Unsetenv("C13_UNSET")
 		c13Srv = &c13Responder{ln: ln, got: make(chan c13Capture, 64)}
+		c13Srvs = []*c13Responder{c13Srv}
 		go c13Srv.loop()
 		casket.Quiet = true
 	})
@@ -591,44 +622,155 @@ func c13HdrTerm(h map[string][]string) string {
 	return cList(it)
 }
 
-func c13RunServe(in *c13In) Result {
+// c13Block: the rule's block as an ordered list of sub-directives (name, args...), exactly as rendered
+func c13Block(ru c13Rule, i int) [][]string {
+	var items [][]string
+	if ru.Items != nil {
+		items = append(items, ru.Items...)
+	} else {
+		if ru.Ext != nil {
+			items = append(items, []string{"ext", *ru.Ext})
+		}
+		if ru.Split != nil {
+			items = append(items, []string{"split", *ru.Split})
+		}
+		if len(ru.Index) > 0 {
+			items = append(items, append([]string{"index"}, ru.Index...))
+		}
+		if len(ru.Except) > 0 {
+			items = append(items, append([]string{"except"}, ru.Except...))
+		}
+	}
+	items = append(items, []string{"env", "VERIF_RULE", strconv.Itoa(i)})
+	if ru.Items == nil {
+		for _, e := range ru.Env {
+			items = append(items, []string{"env", e[0], e[1]})
+		}
+	}
+	return append(items, []string{"read_timeout", "5s"}, []string{"send_timeout", "5s"}, []string{"connect_timeout", "5s"})
+}
+
+func c13PresetName(ru c13Rule) (string, bool) {
+	if ru.PName != nil {
+		return *ru.PName, true
+	}
+	return "php", ru.Preset
+}
+
+func c13ItemTerm(it []string) string {
+	switch {
+	case it[0] == "ext" && len(it) == 2:
+		return cApp("IExt", cStr(it[1]))
+	case it[0] == "split" && len(it) == 2:
+		return cApp("ISplit", cStr(it[1]))
+	case it[0] == "root" && len(it) == 2:
+		return cApp("IRoot", cStr(it[1]))
+	case it[0] == "index" && len(it) >= 2:
+		return cApp("IIndex", cStrList(it[1:]))
+	case it[0] == "except" && len(it) >= 2:
+		return cApp("IExcept", cStrList(it[1:]))
+	case it[0] == "env" && len(it) >= 3:
+		return cApp("IEnv", cStr(it[1]), cStr(it[2]))
+	}
+	return "IOther"
+}
+
+// c13CfgTerm: the directive as written (what the model of fastcgiParse and the spec read)
+func c13CfgTerm(ru c13Rule, i int) string {
+	pre := "None"
+	if n, ok := c13PresetName(ru); ok {
+		pre = "(Some " + cStr(n) + ")"
+	}
+	var its []string
+	for _, it := range c13Block(ru, i) {
+		its = append(its, c13ItemTerm(it))
+	}
+	return fmt.Sprintf("{| c_path := %s; c_preset := %s; c_items := %s |}", cStr(ru.Path), pre, cList(its))
+}
+
+// c13DeclaredRule: what the configuration says, computed on the Go side only for the input class (Sig)
+// and the oracle tables: a block setting wins over the preset's, the last one given wins
+func c13DeclaredRule(ru c13Rule, i int) fastcgi.Rule {
+	var d fastcgi.Rule
+	d.Path = ru.Path
+	if n, ok := c13PresetName(ru); ok && n == "php" {
+		d.Ext, d.SplitPath, d.IndexFiles = ".php", ".php", []string{"index.php"}
+	}
+	for _, it := range c13Block(ru, i) {
+		switch {
+		case it[0] == "ext" && len(it) == 2:
+			d.Ext = it[1]
+		case it[0] == "split" && len(it) == 2:
+			d.SplitPath = it[1]
+		case it[0] == "index" && len(it) >= 2:
+			d.IndexFiles = it[1:]
+		case it[0] == "except" && len(it) >= 2:
+			d.IgnoredSubPaths = it[1:]
+		}
+	}
+	return d
+}
+
+// c13HookWriter: the client connection of a request; during its At-th body write another request
+// is served completely (a deterministic stand-in for a second client handled while this response
+// is in flight).  It does not implement io.ReaderFrom: the handler's copy loop is really used.
+type c13HookWriter struct {
+	rec    *httptest.ResponseRecorder
+	at     int
+	writes int
+	during func()
+}
+
+func (w *c13HookWriter) Header() http.Header { return w.rec.Header() }
+func (w *c13HookWriter) WriteHeader(c int)   { w.rec.WriteHeader(c) }
+func (w *c13HookWriter) Write(p []byte) (int, error) {
+	n, err := w.rec.Write(p)
+	w.writes++
+	if w.writes == w.at && w.during != nil {
+		d := w.during
+		w.during = nil
+		d()
+	}
+	return n, err
+}
+
+func c13RunServe(in *c13In) Result { return c13ServeOne(in, 0, 0, nil) }
+
+// c13ServeOne runs one serve case against the responder of the given level; `during` (if any) is
+// called inside the at-th body write of the response.
+func c13ServeOne(in *c13In, level, at int, during func()) Result {
 	c13Setup()
+	srv := c13ResponderAt(level)
 	fail := func(msg string) Result {
 		return Result{Term: "(CDemux [] [] [] [] 0%N [] [])", Obs: msg, Class: "serve:setup-error", Sig: "serve:setup-error", Direct: msg}
 	}
 	// --- the directive's real setup ---
 	var sb strings.Builder
+	var cfgT []string
+	var declared []fastcgi.Rule
+	presetBlock, unknownPreset := false, false
 	for i, ru := range in.Rules {
-		fmt.Fprintf(&sb, "fastcgi %s %s", c13Quote(ru.Path), c13Srv.ln.Addr().String())
-		if ru.Preset {
-			sb.WriteString(" php")
+		fmt.Fprintf(&sb, "fastcgi %s %s", c13Quote(ru.Path), srv.ln.Addr().String())
+		if n, ok := c13PresetName(ru); ok {
+			sb.WriteString(" " + c13Quote(n))
+			if n != "php" {
+				unknownPreset = true
+			}
+			if ru.Items != nil {
+				presetBlock = true
+			}
 		}
 		sb.WriteString(" {\n")
-		if ru.Ext != nil {
-			fmt.Fprintf(&sb, "  ext %s\n", c13Quote(*ru.Ext))
-		}
-		if ru.Split != nil {
-			fmt.Fprintf(&sb, "  split %s\n", c13Quote(*ru.Split))
-		}
-		if len(ru.Index) > 0 {
-			sb.WriteString("  index")
-			for _, ix := range ru.Index {
-				sb.WriteString(" " + c13Quote(ix))
+		for _, it := range c13Block(ru, i) {
+			sb.WriteString("  " + it[0])
+			for _, a := range it[1:] {
+				sb.WriteString(" " + c13Quote(a))
 			}
 			sb.WriteString("\n")
 		}
-		if len(ru.Except) > 0 {
-			sb.WriteString("  except")
-			for _, ex := range ru.Except {
-				sb.WriteString(" " + c13Quote(ex))
-			}
-			sb.WriteString("\n")
-		}
-		fmt.Fprintf(&sb, "  env VERIF_RULE %d\n", i)
-		for _, e := range ru.Env {
-			fmt.Fprintf(&sb, "  env %s %s\n", c13Quote(e[0]), c13Quote(e[1]))
-		}
-		sb.WriteString("  read_timeout 5s\n  send_timeout 5s\n  connect_timeout 5s\n}\n")
+		sb.WriteString("}\n")
+		cfgT = append(cfgT, c13CfgTerm(ru, i))
+		declared = append(declared, c13DeclaredRule(ru, i))
 	}
 	ctl := casket.NewTestController("http", sb.String())
 	cfg := httpserver.GetConfig(ctl)
@@ -638,18 +780,22 @@ func c13RunServe(in *c13In) Result {
 	if err != nil {
 		return fail("no fastcgi directive: " + err.Error())
 	}
-	if err := action(ctl); err != nil {
-		return fail("fastcgi setup error: " + err.Error() + " for " + sb.String())
+	var fh fastcgi.Handler
+	setupErr := action(ctl)
+	if setupErr != nil && !unknownPreset {
+		return fail("fastcgi setup error: " + setupErr.Error() + " for " + sb.String())
 	}
 	nextCalled := false
-	next := handlerFunc(func(w http.ResponseWriter, r *http.Request) (int, error) {
-		nextCalled = true
-		return 0, nil
-	})
-	h := compile(cfg.Middleware(), next)
-	fh, ok := h.(fastcgi.Handler)
-	if !ok {
-		return fail("middleware is not a fastcgi.Handler")
+	if setupErr == nil {
+		next := handlerFunc(func(w http.ResponseWriter, r *http.Request) (int, error) {
+			nextCalled = true
+			return 0, nil
+		})
+		h := compile(cfg.Middleware(), next)
+		var ok bool
+		if fh, ok = h.(fastcgi.Handler); !ok {
+			return fail("middleware is not a fastcgi.Handler")
+		}
 	}
 	// --- oracle tables for the file system ---
 	cands := map[string]bool{}
@@ -659,11 +805,14 @@ func c13RunServe(in *c13In) Result {
 		if fp == "" {
 			fp = "/"
 		}
-		for _, ru := range fh.Rules {
-			for _, ix := range ru.IndexFiles {
-				cands[path.Join(fp, ix)] = true
+		for _, rl := range [][]fastcgi.Rule{fh.Rules, declared} {
+			for _, ru := range rl {
+				for _, ix := range ru.IndexFiles {
+					cands[path.Join(fp, ix)] = true
+				}
 			}
 		}
+		cands[path.Join(fp, "index.php")] = true
 	}
 	var ck []string
 	for k := range cands {
@@ -714,37 +863,52 @@ func c13RunServe(in *c13In) Result {
 		reply = append(reply, c13EncRec(r)...)
 	}
 	reply = append(reply, c13Expand(in.Tail)...)
-	c13Srv.mu.Lock()
-	c13Srv.seq++
-	seq := c13Srv.seq
-	c13Srv.resp = reply
-	c13Srv.mu.Unlock()
+	srv.mu.Lock()
+	srv.seq++
+	seq := srv.seq
+	srv.resp = reply
+	srv.mu.Unlock()
 
-	httpserver.CaseSensitivePath = in.CS
 	rec := httptest.NewRecorder()
+	var w http.ResponseWriter = rec
+	if during != nil {
+		w = &c13HookWriter{rec: rec, at: at, during: during}
+	}
 	status, panicked := 0, ""
 	var herr error
-	func() {
-		defer func() {
-			httpserver.CaseSensitivePath = false
-			if e := recover(); e != nil {
-				panicked = fmt.Sprint(e)
-			}
+	if setupErr == nil {
+		httpserver.CaseSensitivePath = in.CS
+		func() {
+			defer func() {
+				httpserver.CaseSensitivePath = false
+				if e := recover(); e != nil {
+					panicked = fmt.Sprint(e)
+				}
+			}()
+			status, herr = fh.ServeHTTP(w, req)
 		}()
-		status, herr = fh.ServeHTTP(rec, req)
-	}()
+	}
+	overlapped := false
+	if hw, ok := w.(*c13HookWriter); ok {
+		overlapped = hw.during == nil
+		if hw.during != nil { // the response had fewer body writes: serve the other one afterwards
+			d := hw.during
+			hw.during = nil
+			d()
+		}
+	}
 	// --- what the responder got (if it was contacted) ---
 	var raw []byte
 	contacted := false
 	wait := 2 * time.Millisecond
-	if panicked == "" && !nextCalled && status != 500 {
+	if setupErr == nil && panicked == "" && !nextCalled && status != 500 {
 		wait = 3 * time.Second
 	}
 	deadline := time.After(wait)
 poll:
 	for {
 		select {
-		case c := <-c13Srv.got:
+		case c := <-srv.got:
 			if c.seq == seq {
 				raw, contacted = c.raw, true
 				break poll
@@ -800,7 +964,23 @@ poll:
 	rs := fmt.Sprintf("{| rs_fields := %s; rs_body := %s; rs_recs := %s |}", cList(fields), c13Term(in.RBody), c13RecsTerm(in.Recs))
 	var obs, outcome string
 	obsJ := map[string]interface{}{"status": status}
+	if during != nil {
+		obsJ["next_request_served_during_body_write"] = overlapped
+		if overlapped {
+			obsJ["next_request_served_during_body_write_no"] = at
+		}
+	}
+	var parsed []map[string]interface{}
+	for _, ru := range fh.Rules {
+		parsed = append(parsed, map[string]interface{}{"path": ru.Path, "ext": ru.Ext, "split": ru.SplitPath, "index": ru.IndexFiles, "except": ru.IgnoredSubPaths, "root": ru.Root})
+	}
+	if presetBlock {
+		obsJ["casketfile"], obsJ["parsed_rules"] = sb.String(), parsed
+	}
 	switch {
+	case setupErr != nil:
+		obs, outcome = "SSetupError", "setup-refused"
+		obsJ["setup_error"], obsJ["casketfile"] = setupErr.Error(), sb.String()
 	case panicked != "":
 		obs, outcome = "SPanic", "panic"
 		obsJ["panic"] = panicked
@@ -815,6 +995,9 @@ poll:
 		obs = cApp("SDispatched", c13BytesTerm(raw), cN(uint64(status)), logerr, cN(uint64(rec.Code)), c13HdrTerm(rec.Header()), c13BytesTerm(rec.Body.Bytes()))
 		outcome = "dispatched"
 		obsJ["client_status"], obsJ["client_body_len"], obsJ["responder_got_bytes"] = rec.Code, rec.Body.Len(), len(raw)
+		if want := c13Expand(in.RBody); during != nil || level > 0 {
+			obsJ["client_body_first_difference"] = c13FirstDiff(rec.Body.Bytes(), want)
+		}
 	case nextCalled:
 		obs, outcome = "SNext", "next"
 	default:
@@ -824,7 +1007,7 @@ poll:
 		}
 	}
 	obsJ["outcome"] = outcome
-	// --- input class for known findings ---
+	// --- input class for known findings (computed from the configuration as written) ---
 	sig := "serve:plain"
 	fp := strings.TrimRight(in.Path, " .")
 	switch {
@@ -832,16 +1015,171 @@ poll:
 		sig = "serve:path-changes-length-when-lowercased"
 	case fp == "":
 		sig = "serve:empty-path-after-trim"
-	case in.CS && c13CaseOnlySplit(fh.Rules, fp):
+	case in.CS && c13CaseOnlySplit(declared, fp):
 		sig = "serve:case-sensitive-paths-and-split-differs-in-case"
 	case c13BoundaryHeader(hdr):
 		sig = "serve:pair-fits-one-record-but-8+k+v-exceeds-65500"
-	case c13LaterRuleClaims(fh.Rules, in.Path):
+	case c13LaterRuleClaims(declared, in.Path):
 		sig = "serve:several-rules:earlier-rule-cannot-split"
+	case unknownPreset:
+		sig = "serve:unknown-preset"
+	case presetBlock:
+		sig = "serve:preset-with-block"
 	}
-	term := cApp("CServe", cBool(in.CS), sv, cList(rules), cList(statT), cList(openT), q, c13Term(in.Body), rs, obs)
-	return Result{Term: term, Obs: obsJ, Sig: sig, Nontrivial: outcome == "dispatched" || outcome == "next",
-		Class: "serve:" + outcome + ":" + in.Method}
+	term := cApp("CServe", cBool(in.CS), sv, cStr(c13Root), cList(cfgT), cList(rules), cList(statT), cList(openT), q, c13Term(in.Body), rs, obs)
+	class := "serve:" + outcome + ":" + in.Method
+	if presetBlock || unknownPreset {
+		class = "serve:preset+block:" + outcome
+	}
+	return Result{Term: term, Obs: obsJ, Sig: sig, Nontrivial: outcome == "dispatched" || outcome == "next" || outcome == "setup-refused",
+		Class: class}
+}
+
+// c13FirstDiff: -1 if equal, else the first offset at which got differs from want (or the shorter length)
+func c13FirstDiff(got, want []byte) int {
+	n := len(got)
+	if len(want) < n {
+		n = len(want)
+	}
+	for i := 0; i < n; i++ {
+		if got[i] != want[i] {
+			return i
+		}
+	}
+	if len(got) != len(want) {
+		return n
+	}
+	return -1
+}
+
+// ---------- together: serve cases whose runs overlap in time ----------
+// pinOneP: with one P and no GC a sync.Pool is LIFO (what one goroutine puts back is what the next
+// Get on that P returns), so a buffer shared through a pool between two responses is really handed
+// from one to the other; without sharing nothing changes.
+func c13PinOneP() func() {
+	procs := runtime.GOMAXPROCS(1)
+	gc := debug.SetGCPercent(-1)
+	return func() {
+		debug.SetGCPercent(gc)
+		runtime.GOMAXPROCS(procs)
+	}
+}
+
+func c13RunTogether(in *c13In) Result {
+	defer c13PinOneP()()
+	n := len(in.Subs)
+	results := make([]Result, n)
+	var run func(i int) Result
+	run = func(i int) Result {
+		if i+1 >= n {
+			return c13ServeOne(in.Subs[i], i, 0, nil)
+		}
+		at := 1
+		if i < len(in.At) && in.At[i] > 0 {
+			at = in.At[i]
+		}
+		return c13ServeOne(in.Subs[i], i, at, func() { results[i+1] = run(i + 1) })
+	}
+	if n > 0 {
+		results[0] = run(0)
+	}
+	var terms []string
+	var obs []interface{}
+	direct := ""
+	nontrivial := n > 1
+	for i, r := range results {
+		terms = append(terms, r.Term)
+		obs = append(obs, r.Obs)
+		if r.Direct != "" && direct == "" {
+			direct = fmt.Sprintf("request %d: %s", i, r.Direct)
+		}
+		if m, ok := r.Obs.(map[string]interface{}); !ok || m["outcome"] != "dispatched" {
+			nontrivial = false
+		}
+	}
+	return Result{Term: cApp("CTogether", cList(terms)), Obs: obs, Sig: "serve:overlapping-responses", Direct: direct,
+		Nontrivial: nontrivial, Class: fmt.Sprintf("together:%d", n)}
+}
+
+// ---------- overlap: several streamReaders read by one schedule ----------
+func c13RunOverlap(in *c13In) Result {
+	defer c13PinOneP()()
+	n := len(in.Streams)
+	type rd struct {
+		cl    *fastcgi.FCGIClient
+		r     io.Reader
+		got   []byte
+		reads []uint64
+		code  int
+		done  bool
+	}
+	rds := make([]*rd, n)
+	direct := ""
+	for i, st := range in.Streams {
+		var wire []byte
+		for _, r := range st.Recs {
+			wire = append(wire, c13EncRec(r)...)
+		}
+		wire = append(wire, c13Expand(st.Tail)...)
+		cl := fastcgi.VerifNewClient(&c13Conn{r: wire})
+		r, err := cl.Do(map[string]string{}, nil)
+		if err != nil {
+			direct = "Do failed: " + err.Error()
+		}
+		rds[i] = &rd{cl: cl, r: r}
+	}
+	var sched []string
+	func() {
+		defer func() {
+			if e := recover(); e != nil {
+				direct = fmt.Sprint("panic in streamReader.Read: ", e)
+			}
+		}()
+		for _, sm := range in.Sched {
+			i, m := sm[0], sm[1]
+			if i < 0 || i >= n || rds[i].r == nil {
+				continue
+			}
+			sched = append(sched, cPair(cN(uint64(i)), cN(uint64(m))))
+			x := rds[i]
+			if x.done {
+				continue
+			}
+			p := make([]byte, m)
+			k, err := x.r.Read(p)
+			x.reads = append(x.reads, uint64(k))
+			x.got = append(x.got, p[:k]...)
+			if err != nil {
+				x.code, x.done = c13ErrCode(err), true
+			}
+		}
+	}()
+	var sts, obs []string
+	var obsJ []map[string]interface{}
+	for i, st := range in.Streams {
+		sts = append(sts, cPair(c13RecsTerm(st.Recs), c13Term(st.Tail)))
+		x := rds[i]
+		stderr := fastcgi.VerifStderr(x.cl)
+		obs = append(obs, "("+c13BytesTerm(x.got)+", "+cN(uint64(x.code))+", "+c13BytesTerm(stderr)+", "+cNList(x.reads)+")")
+		var want []byte
+		for _, r := range st.Recs {
+			if r.Ty == 3 {
+				break
+			}
+			if r.Ty == 6 {
+				for k := 0; k < 1 || k < r.N; k++ {
+					want = append(want, c13Expand(r.C)...)
+				}
+			}
+		}
+		d := c13FirstDiff(x.got, want)
+		if d >= len(x.got) { // only a prefix was read
+			d = -1
+		}
+		obsJ = append(obsJ, map[string]interface{}{"delivered": len(x.got), "err": x.code, "stderr": len(stderr), "reads": len(x.reads), "first_difference_from_own_output": d})
+	}
+	return Result{Term: cApp("COverlap", cList(sts), cList(sched), cList(obs)), Obs: obsJ, Sig: "demux:overlapping-responses", Direct: direct,
+		Nontrivial: n > 1, Class: fmt.Sprintf("overlap:%d", n)}
 }
 
 // an earlier rule matches the path but its split string does not occur in it, and a later rule matches the path too
@@ -1070,6 +1408,10 @@ func c13Run(in0 interface{}) Result {
 		return c13RunDemux(in)
 	case "serve":
 		return c13RunServe(in)
+	case "overlap":
+		return c13RunOverlap(in)
+	case "together":
+		return c13RunTogether(in)
 	}
 	panic("bad kind " + in.Kind)
 }
@@ -1789,6 +2131,242 @@ func c13GenDemuxBurst(r *Rand, k int) *c13In {
 	return in
 }
 
+// ---------- preset on the directive line combined with a block ----------
+// c13GenServeCfg: `fastcgi <path> <addr> <preset> { ... }` where the block gives ext / split / index /
+// except / env / root itself (values that differ from the preset's, several times, in any order), for
+// every preset name the code knows (php) and for names it does not know (setup must refuse them);
+// the request asks for an existing script with the block's extension, for it with path info, for a
+// directory with the block's index file, or for a .php script.
+func c13GenServeCfg(r *Rand) *c13In {
+	in := c13GenServe(r)
+	in.CS = r.Chance(8)
+	type flavour struct {
+		ext, split string
+		index      []string
+		scripts    []string
+		dirs       []string
+	}
+	fl := []flavour{
+		{".php5", ".php5", []string{"index.php5"}, []string{"/app/info.php5", "/index.php5", "/app/index.php5", "/app/INFO.PHP5"}, []string{"/app/", "/"}},
+		{".phtml", ".phtml", []string{"home.phtml", "index.phtml"}, []string{"/app/legacy.phtml", "/app/home.phtml", "/app/sub/index.phtml", "/app/Legacy.PHTML"}, []string{"/app/", "/app/sub/"}},
+		{".pl", ".pl", []string{"main.pl"}, []string{"/app/t.pl", "/app/main.pl", "/cgi/tool.pl", "/cgi/TOOL2.PL"}, []string{"/app/", "/cgi/"}},
+		{".php5", ".php", []string{"index.php5", "index.php"}, []string{"/app/info.php5", "/index.php5"}, []string{"/app/", "/"}},
+		{".PHP", ".php", []string{"index.php"}, []string{"/B.PHP", "/app/x.php", "/app/Y.PhP"}, []string{"/app/", "/"}},
+	}
+	f := fl[r.Intn(len(fl))]
+	ru := c13Rule{Path: r.Pick([]string{"/", "/", "/app", "/app/"})}
+	ru.PName = c13Ptr("php")
+	ru.Items = [][]string{}
+	// which settings the block gives (at least one of ext / split / index)
+	mask := 1 + r.Intn(7)
+	var items [][]string
+	if mask&1 != 0 {
+		items = append(items, []string{"ext", f.ext})
+	}
+	if mask&2 != 0 || (mask&1 != 0 && !strings.Contains(strings.ToLower(f.ext), ".php")) { // a script of the new extension must be splittable
+		items = append(items, []string{"split", f.split})
+	}
+	if mask&4 != 0 {
+		items = append(items, append([]string{"index"}, f.index...))
+	}
+	if r.Chance(25) { // a setting given twice: the last one wins
+		switch r.Intn(3) {
+		case 0:
+			items = append([][]string{{"ext", ".cgi"}}, items...)
+		case 1:
+			items = append([][]string{{"index", "first.php", "index.html"}}, items...)
+		default:
+			items = append([][]string{{"split", ".cgi"}}, items...)
+		}
+	}
+	for k := r.Intn(3); k > 0; k-- {
+		e := c13EnvPool[r.Intn(len(c13EnvPool))]
+		if r.Bool() {
+			e = [][2]string{{"APP_ENV", "prod"}, {"FOO", "bar baz"}, {"FOO", "second"}, {"SCRIPT_FLAVOUR", f.ext}}[r.Intn(4)]
+		}
+		items = append(items, []string{"env", e[0], e[1]})
+	}
+	if r.Chance(20) {
+		items = append(items, append([]string{"except"}, [][]string{{"/static.txt"}, {"/noidx", "/x.php"}}[r.Intn(2)]...))
+	}
+	if r.Chance(15) {
+		items = append(items, []string{"root", r.Pick([]string{"/srv/www", "/var/empty/site root"})})
+	}
+	shuffled := make([][]string, len(items))
+	for i, k := range r.Perm(len(items)) {
+		shuffled[i] = items[k]
+	}
+	ru.Items = shuffled
+	// the property's clause presupposes that a script with the rule's extension can be split: if the
+	// settings in effect (last one wins) do not say so, a final split line does
+	if d := c13DeclaredRule(ru, 0); !strings.Contains(strings.ToLower(d.Ext), strings.ToLower(d.SplitPath)) {
+		ru.Items = append(ru.Items, []string{"split", d.Ext})
+	}
+	in.Rules = []c13Rule{ru}
+	switch r.Intn(10) {
+	case 0: // a preset name the code does not know, with the same kind of block
+		ru.PName = c13Ptr(r.Pick([]string{"python", "PHP", "php5", "", "fpm", "php "}))
+		in.Rules = []c13Rule{ru}
+	case 1: // the same block without any preset
+		ru.PName, ru.Preset = nil, false
+		in.Rules = []c13Rule{ru}
+	case 2: // a second rule (plain preset) behind / in front of it
+		other := c13Rule{Path: r.Pick([]string{"/", "/other", "/app/sub"}), Preset: true}
+		if r.Bool() {
+			in.Rules = []c13Rule{ru, other}
+		} else {
+			in.Rules = []c13Rule{other, ru}
+		}
+	}
+	// request path
+	pool := append([]string(nil), f.scripts...)
+	switch r.Intn(8) {
+	case 0, 1, 2, 3:
+	case 4:
+		for i := range pool {
+			pool[i] += r.Pick([]string{"/extra/path", "/a.php/b", "/x"})
+		}
+	case 5:
+		pool = f.dirs
+	case 6:
+		pool = []string{"/app/x.php", "/a.php", "/app/info.php", "/app/x.php/info.php5", "/app/nope.php5", "/app/static.txt"}
+	default:
+		for i := range pool {
+			pool[i] += r.Pick([]string{".", " ", ". "})
+		}
+	}
+	in.Path = pool[r.Intn(len(pool))]
+	return in
+}
+
+// ---------- several responses read at the same time ----------
+// c13BigFrame: output cut into records that are mostly larger than the buffers they are read with
+// (bufio's 4096 for the first, io.Copy's 32 KiB later), with an occasional stderr record between them
+func c13BigFrame(r *Rand, data []byte, withErr bool) []c13Rec {
+	var recs []c13Rec
+	for len(data) > 0 {
+		n := []int{5000, 9000, 20000, 33000, 40000, 65535, 65528, 300, 4097}[r.Intn(9)]
+		if r.Chance(30) {
+			n = r.Range(4097, 65535)
+		}
+		if n > len(data) {
+			n = len(data)
+		}
+		recs = append(recs, c13Rec{Ty: 6, C: c13Compress(data[:n]), Pad: []int{0, 0, 3, 7}[r.Intn(4)]})
+		data = data[n:]
+		if withErr && r.Chance(20) {
+			recs = append(recs, c13Rec{Ty: 7, C: c13Compress([]byte("PHP Notice: between two big records\n"))})
+		}
+	}
+	if r.Chance(70) {
+		recs = append(recs, c13Rec{Ty: 6})
+	}
+	return append(recs, c13EndRec)
+}
+
+// c13OwnPattern: every response has its own byte pattern (counting mod 251 from its own start: two
+// of them differ at EVERY offset, and the run-length coding keeps the terms small), so bytes of
+// another response are recognisable wherever they turn up
+func c13OwnPattern(i, salt, n int) []byte {
+	return c13Pat((salt%80)+i*83, n)
+}
+
+// c13GenOverlap: 2-3 streamReaders; the schedule reads a piece of one response (a buffer smaller
+// than its current record, so a remainder stays behind), then one or more other responses
+// completely or partly, then goes on with the first, and so on until all are read to EOF.
+func c13GenOverlap(r *Rand) *c13In {
+	in := &c13In{Kind: "overlap"}
+	n := 2
+	if r.Chance(30) {
+		n = 3
+	}
+	left := make([]int, n)
+	for i := 0; i < n; i++ {
+		size := r.Range(4200, 60000)
+		if r.Chance(25) {
+			size = r.Range(60000, 140000)
+		}
+		head := []byte(fmt.Sprintf("Content-Type: text/plain\r\nX-Response: %d\r\n\r\n", i))
+		data := append(head, c13OwnPattern(i, r.Intn(251), size)...)
+		st := c13Stream{Recs: c13BigFrame(r, data, r.Chance(40))}
+		in.Streams = append(in.Streams, st)
+		left[i] = len(data) + 64*len(st.Recs)
+	}
+	bufs := []int{4096, 4096, 512, 32768, 1000, 65536, 8192}
+	live := n
+	cur := 0
+	for steps := 0; live > 0 && steps < 3000; steps++ {
+		// a burst of reads of one reader, then switch
+		burst := []int{1, 1, 2, 3, 1000}[r.Intn(5)]
+		m := bufs[r.Intn(len(bufs))]
+		for k := 0; k < burst && left[cur] > 0; k++ {
+			in.Sched = append(in.Sched, [2]int{cur, m})
+			left[cur] -= m
+			if left[cur] <= 0 {
+				live--
+			}
+		}
+		for t := 0; t < n; t++ {
+			cur = (cur + 1 + r.Intn(n)) % n
+			if left[cur] > 0 {
+				break
+			}
+		}
+		if left[cur] <= 0 {
+			for t := 0; t < n; t++ {
+				if left[t] > 0 {
+					cur = t
+				}
+			}
+		}
+	}
+	// trailing reads: every reader reaches EndRequest (an empty record costs one read)
+	for i := 0; i < n; i++ {
+		for k := 0; k < 6; k++ {
+			in.Sched = append(in.Sched, [2]int{i, 4096})
+		}
+	}
+	return in
+}
+
+// c13GenTogether: 2-3 requests through the handler whose responses overlap in time (request i+1 is
+// served completely during the At[i]-th body write of request i), each against its own scripted
+// responder, big records, own byte patterns.
+func c13GenTogether(r *Rand) *c13In {
+	in := &c13In{Kind: "together"}
+	n := 2
+	if r.Chance(25) {
+		n = 3
+	}
+	for i := 0; i < n; i++ {
+		sub := &c13In{Kind: "serve", Proto: "HTTP/1.1", Host: "site.test:8080", Remote: fmt.Sprintf("192.0.2.%d:5%d", 7+i, 1000+i), Prefix: "/",
+			Method: r.Pick([]string{"GET", "GET", "POST"}), Path: r.Pick([]string{"/index.php", "/app/x.php", "/a.php/extra", "/app/info.php"}),
+			Query: fmt.Sprintf("req=%d", i)}
+		sub.Rules = []c13Rule{{Path: "/", Preset: true}}
+		sub.Headers = [][]string{{"User-Agent", fmt.Sprintf("verif/1.0 (c13 together %d)", i)}}
+		if sub.Method == "POST" {
+			nb := r.Range(0, 300)
+			sub.Body = c13Compress(c13Pat(r.Intn(251), nb))
+			sub.CL = int64(nb)
+			sub.Headers = append(sub.Headers, []string{"Content-Length", strconv.Itoa(nb)})
+		}
+		if r.Chance(50) {
+			sub.Fields = append(sub.Fields, [2]string{"Status", r.Pick([]string{"200 OK", "404 Not Found", "201 Created"})})
+		}
+		sub.Fields = append(sub.Fields, [2]string{"Content-Type", "application/octet-stream"}, [2]string{"X-Response", strconv.Itoa(i)})
+		size := r.Range(4200, 50000)
+		if r.Chance(30) {
+			size = r.Range(50000, 120000)
+		}
+		rb := c13OwnPattern(i, r.Intn(251), size)
+		sub.RBody = c13Compress(rb)
+		sub.Recs = c13BigFrame(r, append(c13Head(sub.Fields), rb...), r.Chance(30))
+		in.Subs = append(in.Subs, sub)
+		in.At = append(in.At, []int{1, 1, 1, 2, 3}[r.Intn(5)])
+	}
+	return in
+}
+
 func c13Gen(r *Rand, tier string) []interface{} {
 	nm := 120
 	if tier == "thorough" {
@@ -1828,17 +2406,45 @@ func c13Gen(r *Rand, tier string) []interface{} {
 	for i := 0; i < nc; i++ {
 		out = append(out, c13GenChild(r))
 	}
-	return out
+	// a preset on the directive line combined with a block; responses that overlap in time.
+	// Generated last (the random stream of the cases above is unchanged) and spread evenly among the
+	// others (the overlapping ones are the expensive ones inside Coq).
+	npb, nov, ntg := 70, 18, 12
+	if tier == "thorough" {
+		npb, nov, ntg = 700, 180, 120
+	}
+	var extra []interface{}
+	for i := 0; i < npb; i++ {
+		extra = append(extra, c13GenServeCfg(r))
+		if i*nov/npb != (i+1)*nov/npb {
+			extra = append(extra, c13GenOverlap(r))
+		}
+		if i*ntg/npb != (i+1)*ntg/npb {
+			extra = append(extra, c13GenTogether(r))
+		}
+	}
+	var all []interface{}
+	e := 0
+	for i, c := range out {
+		all = append(all, c)
+		for e < len(extra) && (e+1)*len(out) <= (i+1)*len(extra) {
+			all = append(all, extra[e])
+			e++
+		}
+	}
+	return append(all, extra[e:]...)
 }
 
 func init() {
 	register(&Property{
-		ID: "C13", Imports: "V.Lib V.C13_Model", Judge: "judge", Shard: 68,
+		ID: "C13", Imports: "V.Lib V.C13_Model", Judge: "judge", Shard: 84,
 		Rule: "cases = (wire) real FCGIClient.Do over an in-memory connection, raw bytes decoded in Coq by a reference responder; " +
 			"(demux) real streamReader over scripted record framings (incl. runs of 1..1000 consecutive stderr records before/inside/after the header block, inside/after the body, after EndRequest), connection segmentations and caller buffer sizes, every Read call observed; " +
 			"(serve) real fastcgi setup + Handler.ServeHTTP on a real directory tree (sites with 1-2 php rules, and sites with 2-3 rules for different responders - catch-all + narrower, different ext / split, in any order - and requests for scripts of the later rules) against a byte-level loopback responder (env entries with placeholders that are valued / empty for the request; the same run-length boundary framings); " +
-			"(child) the same handler against Go's net/http/fcgi responder. " +
-			"non-trivial = wire case with at least one pair or body byte, demux case with >= 2 records (runs expanded), serve case that reached the responder or the next handler; distinct = distinct Coq case term",
+			"(child) the same handler against Go's net/http/fcgi responder; " +
+			"(serve, preset+block) directives with a preset name (known / unknown) AND ext / split / index / except / env / root in the block, the directives as written handed to Coq next to the parsed rules; " +
+			"(overlap) 2-3 streamReaders read by one schedule, records larger than the read buffers; (together) 2-3 requests through the handler, request i+1 served completely during a body write of request i, own responder and byte pattern each. " +
+			"non-trivial = wire case with at least one pair or body byte, demux case with >= 2 records (runs expanded), serve case that reached the responder or the next handler or whose setup was refused, overlap case with >= 2 readers, together case whose requests all reached their responder; distinct = distinct Coq case term",
 		Gen: c13Gen,
 		Decode: func(raw json.RawMessage) (interface{}, error) {
 			in := &c13In{}
